@@ -108,3 +108,53 @@ def manifest_classes(man):
         for c in r["classes"]:
             cls[c] = cls.get(c, 0) + 1
     return n, len(hashes), cls
+
+
+def run_sharded(res, vworker, sub, jobs, props, extra=None, nshards=None, timeout=1500, per_task_extra=None, on_record=None, mix=False):
+    """Run `vworker <sub>` over sharded patterns. jobs as in run_scan. A worker death here is a
+    harness problem or C01's business (panics are recovered in-process), so it is reported
+    as inconclusive, not as a violation of `props`.
+    mix=True interleaves patterns of jobs sharing a load dir into common shards."""
+    work = vlib.mktmp(sub + "-")
+    tasks = []
+    n = nshards or vlib.NCPU
+    if mix:
+        bydir = {}
+        for (d, pats, label) in jobs:
+            bydir.setdefault(d, []).extend(pats)
+        jobs = [(d, p, "mix%d" % i) for i, (d, p) in enumerate(bydir.items())]
+    tot = sum(len(p) for _, p, _ in jobs) or 1
+    for (d, pats, label) in jobs:
+        k = max(1, min(len(pats), round(n * len(pats) / tot) or 1))
+        for i, sh in enumerate(vlib.shard(pats, k)):
+            tasks.append((d, sh, "%s-%d" % (label, i)))
+
+    def one(it):
+        idx, (d, pats, label) = it
+        pf = os.path.join(work, label + ".pats")
+        with open(pf, "w") as f:
+            f.write("\n".join(pats) + "\n")
+        outp = os.path.join(work, label + ".jsonl")
+        cmd = [vworker, sub, "-dir", d, "-patterns", pf, "-out", outp] + (extra or [])
+        if per_task_extra:
+            cmd += per_task_extra(idx, label, work)
+        rc = vlib.run_worker(cmd, os.path.join(work, label + ".log"), timeout)
+        return rc, outp, label
+
+    finished = 0
+    for rc, outp, label in vlib.parallel(one, list(enumerate(tasks))):
+        done = res.read_jsonl(outp, accept_props=props, on_record=on_record)
+        if done:
+            finished += 1
+        else:
+            tail = ""
+            try:
+                tail = open(os.path.join(work, label + ".log"), errors="replace").read()[-1500:]
+            except OSError:
+                pass
+            if "HARNESS:" in tail:
+                vlib.harness_fail("%s worker %s: %s" % (sub, label, tail))
+            res.inconclusive.append({"kind": "inconclusive", "worker": label, "rc": rc, "tail": tail[-600:]})
+    res.count("workers", len(tasks))
+    res.count("workers_finished", finished)
+    return work
